@@ -54,7 +54,7 @@ from ..term import ESC, Screen, decode, tokenize
 ID = "C19"
 LEVEL = "exploration"
 ENGINE = "E1+E2"
-CAP_S = {"quick": 600, "thorough": 2400}
+CAP_S = {"quick": 600, "thorough": 3600}
 TECHNIQUE = ("bounded-exhaustive enumeration on the real code: every styled line in scope through encoder and two "
              "independent decoders; every chunking of every stream in scope into write()/flush() histories on the real "
              "FileProxy (bare and through Live/Progress redirection), judged after every call by a reference proxy and "
